@@ -61,7 +61,7 @@ static Case decode(tape_t const& tape)
             else if (kind == 1) in.steps.push_back({ST_SUSPEND_RESUME, w});
             else in.steps.push_back({ST_BURST_WAIT, w});
             if (t.chance(1, 2)) in.steps.push_back({ST_WAIT, -1});
-            if (in.entry != 2 && t.chance(1, 5)) in.steps.push_back({ST_SUSPEND_RESUME, -1, t.pick({1, 1, 3, 20, 200})});
+            if (in.entry != 2 && t.chance(1, 5)) in.steps.push_back({ST_SUSPEND_RESUME, -1, std::min(t.pick({1, 1, 3, 20, 200}), in.cfg.workers <= 4 ? 200 : 30)});    // (a cycle over many workers is slow: bounded so that the case stays well below its watchdog)
         }
         c.inc.push_back(std::move(in));
     }
